@@ -272,7 +272,9 @@ def check_schema(c, it, tr, decisions, src, expected_events, label, method="visi
             return True
         return bool(e[1] is not None and e[1][0] == "attr" and decisions.get((f"{e[0]}.{e[1][1]}", a), False))
 
-    exp = [ev_sig(*e) for e in expected_events if _wanted(e)]
+    exp = [ev_sig(*e) if e[3] != "*" else (e[0], ev_sig(e[0], e[1], e[2], "0", e[4])[1], ev_sig(e[0], e[1], e[2], "0", e[4])[2], "*", e[4]) for e in expected_events if _wanted(e)]
+    stars = {i for i, e in enumerate(x for x in expected_events if _wanted(x)) if e[3] == "*"}
+    got = [(g[0], g[1], g[2], "*", g[4]) if i in stars else g for i, g in enumerate(got)]
     c.prove(f"{label}/events==instrumented-bindings-in-order", got == exp, note=f"got={got} expected={exp}", only=["C02", "C06", "C11"])
     # C09 (and C01: object lifetime is an externally visible effect): a temporary the transformer introduces holds a reference to a user
     # object (the right-hand side); it is deleted as soon as the statement is done, otherwise `del it` in the user's code no longer
@@ -341,7 +343,7 @@ ASSIGN_SCHEMAS = [
     # an index that is neither a constant nor a plain name may have effects even without a call in it (a walrus, a property read,
     # an operator method): it is evaluated once, after the value
     ("subscript-index-binop", "o[__E2 + 1] = __E1", [("o", ("index", "_ptera__1"), None, "_ptera__0", True)]),
-    ("subscript-index-walrus", "o[(k := __E2)] = __E1", [("o", ("index", "_ptera__1"), None, "_ptera__0", True)]),
+    ("subscript-index-walrus", "o[(k := __E2)] = __E1", [("k", None, None, "__VE2", True), ("o", ("index", "_ptera__1"), None, "_ptera__0", True)]),
     ("subscript-index-attribute", "o[__E2.slot] = __E1", [("o", ("index", "_ptera__1"), None, "_ptera__0", True)]),
     ("deep-attribute", "o.a.b = __E1", []),
     ("call-attribute", "f().attr = __E1", []),
@@ -625,8 +627,8 @@ PASS_SCHEMAS = [
     ("nested-def", "def g(a, b=__E1):\n    x = 1\n    return x", []),
     ("nested-class", "class A(__E1):\n    def m(self):\n        return 1", []),
     ("nested-class-body", "class A:\n    v = __E1\n    def m(self):\n        w = 1", []),
-    ("global", "global gg", []),
-    ("nonlocal", "nonlocal nn", []),
+    # (global / nonlocal statements are hoisted by the function-level visitor and replaced by `pass` where they stood: see the
+    # function schemas global-at-top-level, nonlocal-closure and *-declared-in-a-nested-block)
     ("expr", "__E1", []),
     ("delete", "del x", []),
     ("raise", "raise __E1", []),
@@ -635,6 +637,9 @@ PASS_SCHEMAS = [
     # so its body is left exactly as it is (an event for it would be "an event for anything else")
     ("lambda", "k = lambda a: __E1", [("k", None, None, "lambda a: __E1", True)]),
     ("lambda-with-walrus", "k = lambda: (v := __E1)", [("k", None, None, "lambda: (v := __E1)", True)]),
+    # ... but its default values are evaluated in THIS function, when the lambda / def is created
+    ("lambda-default-with-walrus", "k = lambda q=(m := __E1): __E2", [("m", None, None, "__VE1", True), ("k", None, None, "*", True)]),
+    ("nested-def-default-with-walrus", "def g(z=(w := __E1)):\n    return __E2", [("w", None, None, "__VE1", True)]),
     ("nested-async-def", "async def g(a):\n    x = __E1\n    return x", []),
     ("comprehension", "r = [__E1 for i in __E2 if __E3]", [("r", None, None, "[__VE1 for i in __VE2 if __VE3]", True)]),
 ]
@@ -672,6 +677,9 @@ FUNC_SCHEMAS = [
     ("ends-with-try-return", "def f(a):\n    try:\n        return __E1\n    except __E2:\n        __S1", False, True),
     ("ends-with-loop", "def f(a):\n    for i in __E1:\n        return i", False, True),
     ("nonlocal-closure", "def f(a):\n    nonlocal fv\n    fv = __E1\n    return fv", True, True),
+    ("nonlocal-declared-in-a-nested-block", "def f(a):\n    if __E1:\n        nonlocal fv\n        fv = __E2\n    return fv", True, True),
+    ("global-at-top-level", "def f(a):\n    global gg\n    gg = __E1\n    return gg", False, True),
+    ("global-declared-in-a-nested-block", "def f(a):\n    while __E1:\n        global gg\n        gg = __E2\n    return gg", False, True),
 ]
 
 
